@@ -18,6 +18,8 @@ from . import steps as steps_mod
 IDW = 8
 EW = 8
 
+NEW_CACHE = {}
+
 TYPE_MODULE = {'SegExpTree': 'seg::tree', 'SegExpTreeIterator': 'seg::tree', 'Chunk': 'seg::chunk', 'Layout': 'seg::layout',
                'Heap32': 'seg::heap', 'BitIter': 'seg::heap', 'Entity': 'seg::entity'}
 
@@ -253,6 +255,7 @@ class SegHist:
                 s.res['new_is_none'] = True
                 return None
             st.heap['tree'] = r[2][0]
+            NEW_CACHE[(id(s.P), s.lo, s.hi)] = (r[2][0], {k: v for k, v in st.heap.items() if k.startswith('const:')}, set(eng.fns_seen))
             return s.next_op(eng, st)
         op = s.template[A['pos']]
         if op[0] == 'query':
@@ -431,8 +434,21 @@ class SegHist:
         st.aux.update({'pos': -1, 'vals': [], 'now': None, 'syms': [], 'q': None, 'resume': False})
         new = s.inst.find(s.P, 'seg::tree', 'new', [None], 'SegRange')
         try:
-            eng.push_call(st, new, [[bv(s.lo, 32), bv(s.hi, 32)]], None, None, None)
-            s.explore(eng, st)
+            key = (id(s.P), s.lo, s.hi)
+            cached = NEW_CACHE.get(key)
+            if cached is not None and cached[0] is not None:
+                # SegExpTree::new(domain) was executed from its MIR once in this process; its (immutable) result is reused
+                st.heap.update(cached[1])
+                st.heap['tree'] = cached[0]
+                eng.fns_seen.update(cached[2])
+                r = s.next_op(eng, st)
+                if r == 'continue':
+                    s.explore(eng, st)
+                else:
+                    eng.finish_path(st, 'ok')
+            else:
+                eng.push_call(st, new, [[bv(s.lo, 32), bv(s.hi, 32)]], None, None, None)
+                s.explore(eng, st)
         except Unsupported as ex:
             s.res['unsupported'] = str(ex)
         s.res['callbacks'] = cbs[0]
